@@ -19,8 +19,13 @@ from uberjob.progress._null_progress_observer import NullProgressObserver
 BASE = dt.datetime(2021, 3, 4, 5, 6, 7)
 
 
+# one tick of the logical clock: a little more than a quarter of a second, so that consecutive modified times mostly
+# fall into the SAME wall-clock second and differ only in their microseconds (a comparison that drops them is wrong)
+TICK_US = 250_003
+
+
 def as_dt(t):
-    return None if t is None else BASE + dt.timedelta(seconds=t)
+    return None if t is None else BASE + dt.timedelta(microseconds=t * TICK_US)
 
 
 class Cut(Exception):
@@ -74,6 +79,22 @@ class MemStore(uberjob.ValueStore):
 
     def __repr__(self):
         return "MemStore(%r)" % (self.key,)
+
+
+class FalsyStore(MemStore):
+    """A value store whose truth value is False (e.g. a table store whose `len()` is its row count): `is None` tests on
+    stores must not be replaced by truthiness tests."""
+
+    def __len__(self):
+        return 0
+
+
+class FalseStore(MemStore):
+    def __bool__(self):
+        return False
+
+
+STORE_CLASSES = {"plain": MemStore, "empty-len": FalsyStore, "false": FalseStore}
 
 
 def term(v):
@@ -146,9 +167,27 @@ def gen_cache_spec(rng, nmax=9, dependent_sources=True):
             k = rng.choice([1, 1, 2, 3])
             args = [rng.choice(prev) for _ in range(min(k, len(prev)))]
             deps = [d for d in rng.sample(prev, min(len(prev), rng.choice([0, 0, 1]))) if d not in args]
-            nodes.append({"id": i, "kind": "stored" if rng.random() < 0.55 else "call", "args": args, "deps": sorted(deps)})
+            kind = "stored" if rng.random() < 0.55 else "call"
+            nodes.append({"id": i, "kind": kind, "args": args, "deps": sorted(deps)})
+            if kind == "stored" and dependent_sources and i + 2 < n and rng.random() < 0.22:
+                # a source that is a VIEW of this stored value's own storage (a PathSource of the file a stored call
+                # writes, `test_source_dependent_on_write`): the WRITE of the stored value is what produces it
+                nodes[-1]["feeds"] = i + 1
+                extra = [rng.choice(args)] if args and rng.random() < 0.3 else []
+                i += 1
+                nodes.append({"id": i, "kind": "dsource", "args": [], "deps": sorted(set(extra + [i - 1])), "fed_by": i - 1})
         i += 1
-    return {"nodes": nodes}
+    spec = {"nodes": nodes}
+    # the class of every store, and WHEN the stored calls are registered: at creation (registry order = plan order) or
+    # after the whole plan has been built, in a shuffled order (then a dependent source precedes the stored values it
+    # depends on in `registry.mapping`, the order in which `plan_with_value_stores` processes the entries)
+    spec["store_cls"] = {str(nd["id"]): rng.choice(["plain", "plain", "empty-len", "false"]) for nd in nodes
+                         if nd["kind"] in ("source", "dsource", "stored")}
+    stored = [nd["id"] for nd in nodes if nd["kind"] == "stored"]
+    if rng.random() < 0.5:
+        rng.shuffle(stored)
+        spec["late_reg"] = stored
+    return spec
 
 
 def model_plan_line(spec):
@@ -200,21 +239,46 @@ def build_cache(spec, env):
         fn.__name__ = fn.__qualname__ = "f%d" % i
         return fn
 
+    cls = {int(k): STORE_CLASSES[v] for k, v in spec.get("store_cls", {}).items()}
+    feeds = {nd["id"]: nd["feeds"] for nd in spec["nodes"] if "feeds" in nd}
+
+    def feeding(base, target):
+        class Feeding(base):
+            """the store of a stored value whose storage is also seen through a dependent source: completing the write
+            gives that source new content (and a modified time of its own, right after this one's)"""
+
+            def write(self, value):
+                env.event("write-begin", self.key)
+                self.value, self.mtime = value, env.tick()
+                env.rec.add("write", self.key, value, self.mtime)
+                b.ver[target] = b.ver.get(target, 0) + 1
+                b.payload[target] = value
+                st = b.stores[target]
+                st.value, st.mtime = ("s", target, b.ver[target]), env.tick()
+                env.rec.add("write", target, st.value, st.mtime)
+                env.event("write-end", self.key)
+        Feeding.__name__ = Feeding.__qualname__ = base.__name__
+        return Feeding
+    late = spec.get("late_reg")
     for nd in spec["nodes"]:
         i = nd["id"]
         k = nd["kind"]
         if k in ("source", "dsource"):
-            b.stores[i] = MemStore(i, env)
+            b.stores[i] = cls.get(i, MemStore)(i, env)
             b.N[i] = b.reg.source(b.plan, b.stores[i])
         elif k in ("lit", "token"):
             b.N[i] = b.plan.lit(("a", i))
         else:
             b.N[i] = b.plan.call(mkfn(i, nd.get("writes")), *[b.N[a] for a in nd["args"]])
             if k == "stored":
-                b.stores[i] = MemStore(i, env)
-                b.reg.add(b.N[i], b.stores[i])
+                c = cls.get(i, MemStore)
+                b.stores[i] = (feeding(c, feeds[i]) if i in feeds else c)(i, env)
+                if late is None:
+                    b.reg.add(b.N[i], b.stores[i])
         for d in nd["deps"]:
             b.plan.add_dependency(b.N[d], b.N[i])
+    for i in late or []:
+        b.reg.add(b.N[i], b.stores[i])
     b.spec = spec
     b.graph = nx.DiGraph()
     for nd in spec["nodes"]:
@@ -324,6 +388,7 @@ def run_history(spec, hseed, steps, driver, props, mode="prim"):
     compare_state("init")
 
     ids = [nd["id"] for nd in spec["nodes"] if nd["kind"] not in ("producer", "token")]   # a producer is consumed only through its source
+    had_cut = False
     for step in range(steps):
         r = rng.random()
         stats["ops"] += 1
@@ -364,6 +429,9 @@ def run_history(spec, hseed, steps, driver, props, mode="prim"):
             mirror_writes(events)
             ok = rr.exc is None
             was_cut = any(e[0] == "cut" for e in events)
+            # C08: "the next successful run produces correct outputs and stored values" — after a run of this history was
+            # cut short or failed, the from-scratch checks on a later successful run are C08's as well
+            p3 = "C03" if "C03" in props else ("C08" if ("C08" in props and had_cut) else None)
             stats["runs_ok" if ok else ("runs_cut" if was_cut else "runs_failed")] += 1
             writes = [e[1] for e in events if e[0] == "write"]
             calls = [e[1] for e in events if e[0] == "call"]
@@ -378,20 +446,25 @@ def run_history(spec, hseed, steps, driver, props, mode="prim"):
                     lines.pop(); expect.pop()
                     for k, o in enumerate(out):
                         q("cseen %d" % o, "eq", term(rr.value[k]), f"run output #{k} (node {o})")
-                        if "C03" in props and rr.value[k] != fs[o]:
-                            viol.append({"property": "C03", "what": f"run returned {term(rr.value[k])} for node {o}, from scratch gives {term(fs[o])}",
+                        if p3 and rr.value[k] != fs[o]:
+                            viol.append({"property": p3, "what": f"run returned {term(rr.value[k])} for node {o}, from scratch gives {term(fs[o])}",
                                          "step": desc})
                 for nd in spec["nodes"]:
                     # a dependent source must hold what its producer would write from scratch
-                    if nd["kind"] == "producer" and "C03" in props and b.stores[nd["writes"]].mtime is not None:
+                    if nd["kind"] == "producer" and p3 and b.stores[nd["writes"]].mtime is not None:
                         want = ("a", nd["id"]) + tuple(fs[a] for a in nd["args"])
                         if b.payload.get(nd["writes"]) != want:
-                            viol.append({"property": "C03", "what": f"dependent source {nd['writes']} holds content produced from "
+                            viol.append({"property": p3, "what": f"dependent source {nd['writes']} holds content produced from "
                                          f"{term(b.payload.get(nd['writes'])) if nd['writes'] in b.payload else None}, from scratch its producer computes {term(want)}",
                                          "step": desc})
+                    if "feeds" in nd and p3 and b.stores[nd["feeds"]].mtime is not None \
+                            and b.payload.get(nd["feeds"]) != fs[nd["id"]]:
+                        viol.append({"property": p3, "what": f"source {nd['feeds']} (a view of stored value {nd['id']}) shows content written from "
+                                     f"{term(b.payload.get(nd['feeds'])) if nd['feeds'] in b.payload else None}, from scratch gives {term(fs[nd['id']])}",
+                                     "step": desc})
                 for i, s in b.stores.items():
-                    if b.kinds[i] == "stored" and "C03" in props and s.value != fs[i]:
-                        viol.append({"property": "C03", "what": f"after a successful run store {i} holds {term(s.value) if s.mtime else None}, "
+                    if b.kinds[i] == "stored" and p3 and s.value != fs[i]:
+                        viol.append({"property": p3, "what": f"after a successful run store {i} holds {term(s.value) if s.mtime else None}, "
                                      f"from scratch gives {term(fs[i])}", "step": desc})
                 if "C05" in props:
                     want_w = sorted(i for i in ood_before if i in b.stores and b.kinds[i] == "stored")
@@ -427,8 +500,7 @@ def run_history(spec, hseed, steps, driver, props, mode="prim"):
                                          "step": desc})
                         mirror_writes(env.rec.events)
             else:
-                # cut / failed run: completed writes must not be redone by the next run unless something upstream changed
-                pass
+                had_cut = True
             if "C09" in props:
                 viol += [dict(v, step=desc) for v in order_monitor(b, events)]
         elif r < 0.82:
@@ -444,8 +516,11 @@ def run_history(spec, hseed, steps, driver, props, mode="prim"):
             regs = sorted(b.stores)
             if regs:
                 i = rng.choice(regs)
-                b.stores[i].value, b.stores[i].mtime = None, None
-                q("cop delete %d" % i, "eq", "ok", "cop")
+                nd_i = spec["nodes"][i]
+                both = [i] + ([nd_i["feeds"]] if "feeds" in nd_i else []) + ([nd_i["fed_by"]] if "fed_by" in nd_i else [])
+                for j in both:           # a stored value and the source that is a view of its storage disappear together
+                    b.stores[j].value, b.stores[j].mtime = None, None
+                    q("cop delete %d" % j, "eq", "ok", "cop")
                 log.append({"op": "delete", "store": i})
                 stats["deletes"] += 1
         compare_state("after step %d" % step)
